@@ -62,6 +62,9 @@ Section Glue.
   Lemma glue_nil_r_lemma (a : list (list A)) : glue a [] = a.
   Proof. destruct a; reflexivity. Qed.
 
+  Lemma glue_unit_lemma (a : list (list A)) : glue [] a = a /\ glue a [] = a.
+  Proof. split; [apply glue_nil_l_lemma | apply glue_nil_r_lemma]. Qed.
+
   (* number of fields: one less than the sum, when both are non-empty *)
   Lemma glue_r_length a b :
     a <> [] -> b <> [] -> S (length (glue_r a b)) = length a + length b.
